@@ -31,8 +31,9 @@ INTERFACES = [
     ("nodoc", "a, b=2", None, None),
     ("kwargs", "a, b=2, **kwargs", ":param a: the a\n:param b: the b\n:param kwargs: extra", None),
     ("noparams", "", None, None),
+    ("returns_default_clause", "a, b=2", ":param a: the a\n:param b: the b\n:returns: the result. Defaults to a + 1", None),
 ]
-ROUTES = ("function", "method", "argparse", "call")
+ROUTES = ("function", "method", "argparse", "call", "class_call_to_method")
 
 
 def bodies(maxlen):
@@ -70,6 +71,14 @@ def build_source(route, iface, body_idx, final):
         body.append(fin)
     if not body:
         body = ["pass"]
+    if route == "class_call_to_method":
+        # a class whose __call__ carries the body; merged into the class IR and emitted back as the method
+        cdoc = '"""\nSummary\n\n:cvar a: the a\n:cvar b: the b\n"""'
+        mbody = stmts + ([fin] if fin else [])
+        if not mbody:
+            mbody = ["pass"]
+        msrc = "def __call__(self):\n" + indent('"""call doc"""\n' + "\n".join(mbody), 4)
+        return "class K(object):\n" + indent(cdoc + "\na: int = 1\nb: int = 2\n\n" + msrc, 4) + "\n"
     first = "self, " if route == "method" else ""
     head = "def f(%s%s)%s:" % (first, sig, (" -> %s" % ret) if ret else "")
     src = head + "\n" + indent("\n".join(body), 4) + "\n"
@@ -148,7 +157,10 @@ class C16(core.Check):
             bl = bodies(3 if self.tier == "thorough" else 2)
             self._cases = [{"route": r, "iface": i, "body": list(b), "final": f}
                            for r in ROUTES for i in range(len(INTERFACES)) for b in bl for f in range(len(FINALS))
-                           if not (r == "argparse" and i > 0)]
+                           if not (r in ("argparse", "class_call_to_method") and i > 0)
+                           # a documented returned default with a body that returns nothing is emitted as a return
+                           # statement by design; the property is about bodies that have their own final return
+                           and not (INTERFACES[i][0] == "returns_default_clause" and f == 0)]
         return _Space(self._cases)
 
     def run_case(self, case):
@@ -157,6 +169,8 @@ class C16(core.Check):
         route, iface = case["route"], case["iface"]
         src = build_source(route, iface, case["body"], case["final"])
         tree = ast.parse(src)
+        if route == "class_call_to_method":
+            return self.run_class_call(case, src, tree)
         fd = tree.body[0] if route != "method" else tree.body[0].body[0]
         before = non_doc_body(fd)
         labels = [STMTS[i][0] for i in case["body"]]
@@ -204,6 +218,36 @@ class C16(core.Check):
             dropped = [i for i, s in enumerate(b) if s not in sa]
             sites.append(site(False, dict(base, field="body"), fail=kind, n_before=len(b), n_after=len(a), first_dropped=dropped[:1]))
         return sites, ((src, route) if labels else None), [src, route, a]
+
+
+def _run_class_call(self, case, src, tree):
+    from doctrans import emit, parse
+
+    labels = [STMTS[i][0] for i in case["body"]]
+    base = {"route": "class_call_to_method", "iface": "class", "body": ">".join(labels) or "-", "final": FINALS[case["final"]][0],
+            "first": labels[0] if labels else "-", "n": len(labels)}
+    cls = tree.body[0]
+    call = next(n for n in cls.body if isinstance(n, ast.FunctionDef))
+    before = non_doc_body(call)
+    try:
+        ir = parse.class_(copy.deepcopy(cls), merge_inner_function="__call__")
+        out = emit.function(ir, function_name="__call__", function_type="self")
+        after = non_doc_body(ast.parse(ast.unparse(out)).body[0])
+    except Exception as e:
+        return [site(False, dict(base, field="convert"), fail="raise", **core.exc_obs(e))], (src, "ccm") if labels else None, [src, "raise"]
+    b, a = dumps(before), dumps(after)
+    if b == ["Pass()"]:
+        b = [] if a == [] else b
+    sites = [site(True, dict(base, field="convert"))]
+    if b == a:
+        sites.append(site(True, dict(base, field="body")))
+    else:
+        kind = "statements_dropped" if len(a) < len(b) else ("statements_added_or_duplicated" if len(a) > len(b) else "statements_changed")
+        sites.append(site(False, dict(base, field="body"), fail=kind, n_before=len(b), n_after=len(a)))
+    return sites, ((src, "ccm") if labels else None), [src, "ccm", a]
+
+
+C16.run_class_call = _run_class_call
 
 
 def _is_argparse_plumbing(s):
